@@ -419,6 +419,30 @@ pub fn fail_injection<S: USet>(e: &mut Eng<S>, hists: usize, steps: usize) {
                 e.emit(&l);
                 e.bump(&format!("flt:requests:{}", nalloc));
             }
+            if kind == 10 && !S::TYPED && nalloc <= 6 && after_fail.len() as u64 == nalloc as u64 {
+                let vs: Vec<u64> = (0..5).map(|k| S::norm(v.wrapping_add(k * 1000))).collect();
+                let mut l = format!("flx 0 {}", vs.len());
+                for x in &vs {
+                    l.push_str(&format!(" {}", x));
+                }
+                l.push_str(&format!(" {}", nalloc));
+                if e.mode == crate::engine::Mode::Script {
+                    l.push_str(" D");
+                    for d in &used_draws {
+                        l.push_str(&format!(" {}", d));
+                    }
+                }
+                l.push_str(" R");
+                for (k, r) in after_fail.iter().enumerate() {
+                    if k > 0 {
+                        l.push_str(" |");
+                    }
+                    l.push(' ');
+                    l.push_str(r);
+                }
+                e.emit(&l);
+                e.bump(&format!("flx:requests:{}", nalloc));
+            }
             // the real step, recorded in the trace
             match kind {
                 0..=6 => e.op_ins(0, v),
